@@ -275,3 +275,44 @@ def setrep(tier, seed, runner, lines):
              'BADSTATE': 'the state BEFORE the call is not the layout of any record: an earlier operation left a representation that no parse produces'}.get(cls, cls), s[:1200], a[:1200]))
         viol.append(('setrep', cur, detail, True))
     return {'coverage': cov, 'violations': viol}
+
+
+def _wpt(which, runner):
+    """the web-platform-tests expectations (doc/wpt) against the C++ answers AND against the Standard-shaped Lean
+    model (Spec): validates the transcription of the Standard that the conformance theorems are stated against,
+    and runs the conformance data the repository's own wpt-* tests cannot run in this sandbox"""
+    import json, gencases
+    g = gencases.generate([which], 0, 1)
+    lines = g.lines
+    cpp, rc, err, lean = runner.run(lines)
+    d = g.form_data() if which == 'wptform' else g.wpt_data('urltestdata.json' if which == 'wpt' else 'setters_tests.json')
+    def hxs(s): return '-' if s == '' else s.encode('utf-8', 'surrogatepass').hex()
+    starts = [i for i, l in enumerate(lines) if l == 'case'][1:]   # the first 'case' is the stream separator
+    cov = {'cases': len(d), 'spec_agrees': 0, 'cpp_agrees': 0}
+    viol = []
+    for k, s0 in enumerate(starts[:len(d)]):
+        if which == 'wpt':
+            c = d[k]; i = s0 + 1
+            want = None if c.get('failure') else {f: hxs(c[f]) for f in ('href', 'origin', 'protocol', 'username', 'password', 'host', 'hostname', 'port', 'pathname', 'search', 'hash') if f in c}
+        elif which == 'wptform':
+            sort, c = d[k]; i = s0 + (2 if sort else 1)
+            want = {'sp': ','.join(hxs(n) + ':' + hxs(v) for n, v in c['output']) or '-'}
+        else:
+            st, c = d[k]; i = s0 + 2
+            want = {f: hxs(v) for f, v in c['expected'].items()}
+        if i >= len(cpp) or i >= len(lean): break
+        def agrees(ans):
+            if want is None: return 'href=' not in ans
+            f = dict(t.split('=', 1) for t in ans.split(' ') if '=' in t)
+            return all(f.get(a) == b for a, b in want.items())
+        a_spec = agrees(lean[i].partition(' ## ')[2]); a_cpp = agrees(cpp[i].split(' @@')[0])
+        cov['spec_agrees'] += a_spec; cov['cpp_agrees'] += a_cpp
+        if not a_cpp and len(viol) < 3:
+            viol.append(('wpt', lines[s0:i + 1], 'wpt\nweb-platform-tests expectation not met by the library: %s\nC++: %s' % (json.dumps(c)[:800], cpp[i][:600]), True))
+        elif not a_spec and len(viol) < 3:
+            viol.append(('wpt-model', lines[s0:i + 1], 'wpt-model\nthe Standard-shaped model (Spec) disagrees with a web-platform-tests expectation (the library agrees with it): the transcription is wrong or the test data is newer than the Standard snapshot: %s\nSpec: %s' % (json.dumps(c)[:800], lean[i].partition(' ## ')[2][:600]), False))
+    return {'coverage': cov, 'violations': viol}
+
+def wpt(tier, seed, runner, lines): return _wpt('wpt', runner)
+def wptset(tier, seed, runner, lines): return _wpt('wptset', runner)
+def wptform(tier, seed, runner, lines): return _wpt('wptform', runner)
